@@ -168,7 +168,7 @@ def replay_catalogue(c, wd, pid):
     return rs
 
 
-def critical_positions(c, wd, pid, seed):
+def critical_positions(c, wd, pid, seed, near=1):
     """Positions.tla: the 16-bit position arithmetic of the hash tables never overflows for any
     token sequence (model), does overflow under the seeded threshold (negative configuration),
     and the critical positions the model prints are realised as real zlib streams (spec -> impl)."""
@@ -185,7 +185,7 @@ def critical_positions(c, wd, pid, seed):
     c.note("negative model (reshift threshold 0x10000 - 258) violates NoOverflow as expected")
     apalache_inductive(c, "Positions", wd, "ConstInit", "Init", "IndInit", "IndInv", "NoOverflow", neg_cinit="ConstInitLate")
     res = os.path.join(wd, "critical.res")
-    vh(["deflate-critical", "--in", crit, "--out", res, "--seed", seed], timeout=3600)
+    vh(["deflate-critical", "--in", crit, "--out", res, "--seed", seed, "--near", near], timeout=3600)
     rs = list(read_ndjson(res))
     for x in rs:
         if x["kind"] == "summary":
